@@ -230,6 +230,20 @@ def step (st : St) (line : String) : St × String :=
     | none => (st, "bad-op")
   | ["gossip"] => observe { st with w := st.w.gossipAll } "ok"
   | ["bc", f, t] => observe { st with w := st.w.deliverGossip f.toNat! t.toNat! } "ok"
+  | ["bcone", f, t, k] =>
+    let n := st.w.node f.toNat!
+    let mine := n.pending.filter (fun e => e.1 == t.toNat!)
+    match mine[k.toNat!]? with
+    | none => observe st "nosuch"
+    | some e =>
+      -- remove exactly the k-th payload pending for that destination
+      let rec dropKth : List (Nat × Event) → Nat → List (Nat × Event)
+        | [], _ => []
+        | x :: rest, j => if x.1 == t.toNat! then (if j = 0 then rest else x :: dropKth rest (j - 1)) else x :: dropKth rest j
+      let w := st.w.setNode f.toNat! { n with pending := dropKth n.pending k.toNat! }
+      let nd := w.node t.toNat!
+      let w := if nd.failed then w else w.setNode t.toNat! { nd with dist := merge nd.dist e.2 }
+      observe { st with w } "ok"
   | ["losegossip", f, t] =>
     let n := st.w.node f.toNat!
     ({ st with w := st.w.setNode f.toNat! { n with pending := n.pending.filter (fun e => e.1 != t.toNat!) } }, "ok")
